@@ -2,7 +2,7 @@
    Statements only; every proof is [exact <lemma>].
    The Raft log is a marker (compaction point) and the consecutive entries after it; applied <= last.
    dragonboat's reader is its contract with the cut point as an oracle [cut]: every theorem holds for every cut. *)
-From Verif Require Import Model.Bytes Model.LogReader Proofs.LogReaderFacts.
+From Verif Require Import Model.Bytes Model.LogReader Proofs.LogReaderFacts Proofs.CacheFacts.
 
 (* one answer for the range [F, applied+1): empty batch at applied+1, 'use snapshot' at or below the compaction
    point, otherwise a NON-EMPTY prefix of the log's entries from F (consecutive, own indices, none beyond applied) *)
@@ -30,7 +30,7 @@ Print Assumptions C06_size_cut_nonempty.
    entries F..applied, each labelled with its own index, in non-empty batches, followed by the up-to-date message *)
 Theorem C06_stream_exact : forall (l : rlog) (applied : N), wf_log l -> applied <= llast l ->
   forall (q : cache -> lrange -> (list lentry + qerr) * cache) (Inv : cache -> Prop),
-  (forall c F, Inv c -> marker l < F <= applied + 1 \/ F <= marker l ->
+  (forall c F, Inv c -> 1 <= F -> marker l < F <= applied + 1 \/ F <= marker l ->
      exact_answer l applied F (fst (q c {| rfirst := F; rlast := applied + 1 |})) /\
      Inv (snd (q c {| rfirst := F; rlast := applied + 1 |}))) ->
   forall fuel c F, Inv c -> marker l < F <= applied + 1 ->
@@ -45,16 +45,39 @@ Theorem C06_leader_behind : forall fuel (q : cache -> lrange -> (list lentry + q
   fst (replicate fuel q c applied from) = [MLeaderBehind].
 Proof. exact replicate_leader_behind. Qed.
 Theorem C06_use_snapshot : forall fuel (q : cache -> lrange -> (list lentry + qerr) * cache) (Inv : cache -> Prop) (l : rlog) c (applied from : N),
-  (forall c F, Inv c -> marker l < F <= applied + 1 \/ F <= marker l ->
+  (forall c F, Inv c -> 1 <= F -> marker l < F <= applied + 1 \/ F <= marker l ->
      exact_answer l applied F (fst (q c {| rfirst := F; rlast := applied + 1 |})) /\ Inv (snd (q c {| rfirst := F; rlast := applied + 1 |}))) ->
-  Inv c -> from <= marker l -> marker l <= applied ->
+  Inv c -> 1 <= from -> from <= marker l -> marker l <= applied ->
   fst (replicate (S fuel) q c applied from) = [MUseSnapshot].
 Proof. exact replicate_use_snapshot. Qed.
 Print Assumptions C06_use_snapshot.
 
-(* C06_cache_transparent (the cached reader meets the same contract under the cache invariant "the buffer is a
-   contiguous run of true log entries") is NOT yet a theorem of this development: it is checked by the correspondence
-   runs (cached vs simple vs model on every query) and recorded as partial in DESIGN.md. *)
+(* the optional log cache never changes the answer (apart from where the size limit cuts it): under the invariant that
+   the cache buffer is a contiguous slice of the log's entries - established by the empty cache, preserved by every
+   query, re-established by the invalidation on compaction - every answer of Cached.QueryRaftLog meets the same
+   contract as the plain reader's, for every cache size and every query, also one whose end is older than what the
+   cache has already seen *)
+Theorem C06_cached_answer_exact : forall (cut : N -> N -> N -> nat) (l : rlog) (c : cache) (applied F mx : N),
+  wf_log l -> cache_ok l c -> 1 <= F -> marker l <= applied -> applied <= llast l ->
+  (marker l < F <= applied + 1 \/ F <= marker l) ->
+  exact_answer l applied F (fst (cached_query cut c l {| rfirst := F; rlast := applied + 1 |} mx)) /\
+  cache_ok l (snd (cached_query cut c l {| rfirst := F; rlast := applied + 1 |} mx)).
+Proof. exact cached_answer_exact. Qed.
+Print Assumptions C06_cached_answer_exact.
+Theorem C06_cache_initially_ok : forall (l : rlog) (size : nat), cache_ok l {| buf := []; csize := size |}.
+Proof. intros l size. left. reflexivity. Qed.
+
+(* hence the stream served through the cached reader is exact *)
+Theorem C06_cached_stream_exact : forall (cut : N -> N -> N -> nat) (l : rlog) (applied mx : N),
+  wf_log l -> marker l <= applied -> applied <= llast l ->
+  forall fuel c F, cache_ok l c -> marker l < F <= applied + 1 ->
+  (length (range_entries l F (applied + 1)) < fuel)%nat ->
+  let ms := fst (replicate_loop fuel (fun c rg => cached_query cut c l rg mx) c applied {| rfirst := F; rlast := applied + 1 |}) in
+  cmds_of ms = map entry_to_command (range_entries l F (applied + 1)) /\
+  exists front, ms = front ++ [MUpToDate applied] /\ Forall (fun m => exists cs, m = MCommands applied cs /\ cs <> []) front.
+Proof. exact cached_stream_exact. Qed.
+Print Assumptions C06_cached_stream_exact.
+
 Example C06_example :
   let l := {| marker := 2; lents := [ {| eidx := 3; epay := 30; esz := 10; eenc := true |};
                                       {| eidx := 4; epay := 0; esz := 10; eenc := false |};
